@@ -416,3 +416,24 @@ Definition cq_restrict_nc (cap : nat) (p : bool) (s : snap) (f vars : edge) : gr
 (** [substitute_edge] including [substitute_prepare] *)
 Definition cq_subst_nc (cap : nat) (p : bool) (s : snap) (f : edge) (pairs : list (nat * edge)) (id : N)
   : gres unit edge := cq_run_nc cap p s (CQSubst f pairs id).
+
+(** ** The hypothesis of the theorems about call [k] ([cqcall_ok] of
+    Mgr/OomBcddQSafe.v) as a checker the correspondence run evaluates on every
+    snapshot: operands are stored nodes / the terminal; for [substitute]: distinct
+    existing variables, valid replacement edges *)
+
+Fixpoint nat_nodup_b (l : list nat) : bool :=
+  match l with
+  | [] => true
+  | x :: r => negb (existsb (Nat.eqb x) r) && nat_nodup_b r
+  end.
+
+Definition cqcall_ok_b (s : snap) (k : cqcall) : bool :=
+  match k with
+  | CQQuant _ f vars => ref_ok_b s (eref f) && ref_ok_b s (eref vars)
+  | CQApplyQuant _ _ f g vars => ref_ok_b s (eref f) && ref_ok_b s (eref g) && ref_ok_b s (eref vars)
+  | CQRestrict f vars => ref_ok_b s (eref f) && ref_ok_b s (eref vars)
+  | CQSubst f pairs _ =>
+    ref_ok_b s (eref f) && nat_nodup_b (map fst pairs) &&
+    forallb (fun p : nat * edge => Nat.ltb (fst p) (nlevels s) && ref_ok_b s (eref (snd p))) pairs
+  end.
